@@ -1,6 +1,7 @@
 import PybtexModel.Drv.Json
 import PybtexModel.Model.Width
 import PybtexModel.Model.TeXStringU
+import PybtexModel.Model.TeXCaseFull
 import PybtexModel.Spec.TeXString
 open Lean
 namespace Pybtex.Drv.C12
@@ -39,7 +40,8 @@ def tex (j : Json) : Except String Json := do
   | "purify" => pure (obj [("out", optE strToJson (bibtexPurifyG uniOps s))])
   | "case" =>
     let m ← parseMode (← getStr j "mode")
-    pure (obj [("out", if caseDomain s then optE strToJson (changeCaseG uniOps s m) else outside)])
+    pure (obj [("out", optE strToJson (changeCaseW pyWordOps s m)),
+               ("domain_model", if caseDomain s then optE strToJson (changeCaseG uniOps s m) else outside)])
   | "width" => pure (obj [("out", optE int (bibtexWidthStd s))])
   | "fcb" => let r := findClosingBrace s; pure (obj [("out", arr [strToJson r.1, strToJson r.2])])
   | "split" =>
@@ -59,7 +61,8 @@ def builtinE (f : α → Json) : Except BuiltinErr α → Json
 
 /-- everything about one string in one reply.  The character-class dependent primitives
 (`purify`, `case`, `firstletter`, `abbreviate`) are the Unicode-aware ones of
-`Model/TeXStringU.lean`; case change is answered only inside `caseDomain`. -/
+`Model/TeXStringU.lean`; case change is `Model/TeXCaseFull.lean` (`str.lower` / `str.upper` as string
+operations of the interpreter: every string is answered). -/
 def texAll (j : Json) : Except String Json := do
   let s ← getStr j "s"
   let ns ← (← getArr j "ns").mapM fun x => x.getInt?
@@ -73,12 +76,12 @@ def texAll (j : Json) : Except String Json := do
     | .ok _ => getStrList j "delims"
     | .error _ => pure []
   let dom := caseDomain s
-  let cc := fun m => optE strToJson (changeCaseG uniOps s m)
+  let cc := fun m => optE strToJson (changeCaseW pyWordOps s m)
   let out := obj [
     ("scan", optE toksJ (scan s)),
     ("len", optE nat (bibtexLen s)),
     ("purify", optE strToJson (bibtexPurifyG uniOps s)),
-    ("case", if dom then obj [("l", cc .l), ("u", cc .u), ("t", cc .t)] else outside),
+    ("case", obj [("l", cc .l), ("u", cc .u), ("t", cc .t)]),
     ("width", optE int (bibtexWidthStd s)),
     ("split", obj [("space", strs (splitTex .space s)), ("comma", strs (splitTex .comma s)),
                    ("hyphen", strs (splitTex .hyphen s)), ("and", strs (splitNameList s))]),
@@ -98,8 +101,7 @@ def texAll (j : Json) : Except String Json := do
       ("text.length$", optE nat (bibtexLen s)),
       ("width$", optE int (bibtexWidthStd s)),
       ("num.names$", nat (splitNameList s).length),
-      ("change.case$", if dom then arr (modes.map fun m => builtinE strToJson (changeCaseBuiltin uniOps s m))
-                       else outside)])]
+      ("change.case$", arr (modes.map fun m => builtinE strToJson (changeCaseBuiltinW pyWordOps s m)))])]
   let spec := obj [
     ("substring", arr (subs.map fun p => strToJson (Spec.substring s p.1 p.2))),
     ("balanced", Json.bool (Spec.balanced s)),
@@ -118,7 +120,33 @@ def texSplit (j : Json) : Except String Json := do
     ("num.names$", nat (splitNameList s).length)]
   pure (obj [("out", out), ("spec", obj [("balanced", Json.bool (Spec.balanced s))])])
 
+/-- `str.lower` / `str.upper` of the interpreter on one string: the two word operations `change_case` calls
+(function-level tie of `lowerPy` / `upperPy`), and `mode[0].lower()` as `modeLetter` reads it -/
+def texCase (j : Json) : Except String Json := do
+  let w ← getStr j "w"
+  pure (obj [("out", obj [("lower", strToJson (lowerPy w)), ("upper", strToJson (upperPy w))])])
+
+/-- the constants of the source that the model hard-codes (in `scanM`, `stripCtrlWord`, `spaceRun`, `fcbAux`, `isAndAt`,
+`bibtexAbbreviateG`, `modeLetter`, `widthTok`, `purifyTokG`, `firstLetterAuxG`, `splitTex`), in the spelling of the source;
+the harness reads the same constants off /repo on every run and compares.  `max_level` is the model's own constant, the
+others are declarations of what the hand-written matchers implement. -/
+def texConsts (_j : Json) : Except String Json :=
+  pure (obj [("out", obj [
+    ("max_level", nat maxLevel),
+    ("purify_special_char_re", Json.str "^\\\\[A-Za-z]+"),
+    ("BIBTEX_SPACE_RE", Json.str "(?:\\\\ |\\s|(?<!\\\\)~)+"),
+    ("BRACE_RE", Json.str "{|}"),
+    ("name_list_sep", Json.str " [Aa][Nn][Dd] "),
+    ("abbreviate_delimiter", Json.str ".-"),
+    ("abbreviate_separator", Json.str "-"),
+    ("change_case_modes", arr [Json.str "l", Json.str "u", Json.str "t"]),
+    ("width_special_braces", nat 1000),
+    ("width_special_skip", nat 2),
+    ("purify_blank_chars", Json.str "-~"),
+    ("first_letter_format", Json.str "{{{0}}}"),
+    ("split_defaults", arr [Json.null, Json.bool true, Json.bool false])])])
+
 def handlers : List (String × (Json → Except String Json)) :=
-  [("tex", tex), ("texall", texAll), ("texsplit", texSplit)]
+  [("tex", tex), ("texall", texAll), ("texsplit", texSplit), ("texcase", texCase), ("texconsts", texConsts)]
 
 end Pybtex.Drv.C12
